@@ -351,7 +351,8 @@ def checkRun (m : Mol) (env : Env) (opts : Opts) : String :=
   | .error e => "err " ++ e.name
   | .ok (rs, order) =>
     let ts := joinRounds rs
-    let fails := (if rs.all (roundOk m) then [] else ["round"]) ++
+    let fails := (if m.WF then [] else ["wf"]) ++   -- hypothesis of the coverage theorems (Props/C02 §8)
+                 (if rs.all (roundOk m) then [] else ["round"]) ++
                  (if closuresOk ts then [] else ["closures"]) ++
                  (if cyclesWF [] [] (rs.flatMap roundCycles) then [] else ["cycles"]) ++
                  (if decide (rs.flatMap fun r => closureAtoms r.smi r.tokens).Nodup then [] else ["once"]) ++
